@@ -76,6 +76,7 @@ TNextX ==
      \/ (SvOfUpdate /\ UNCHANGED H)
      \/ (Sync /\ UNCHANGED H)
      \/ (Nondet /\ UNCHANGED H)
+     \/ (Crash /\ UNCHANGED H)
      \/ StickyMake
      \/ StickyResolve
 
